@@ -425,6 +425,13 @@ def _sp_post(ctx):
                 obs = [x for x in st["entries"] if x[-1] != ""]
                 if not exp and t["name"] != tierName:
                     classes.append("C17:split:empty-secondary-tier")
+                if kind == "I" and exp:
+                    # the cropped TextGrid is written with the default minimum interval length: a gap or interval shorter than 1e-8 s
+                    # in it is absorbed on saving (C04's subject, judged there) - such a case is not judged here
+                    cuts = [M.F(0)] + [M.F(v) for x in exp for v in x[:2]] + [M.F(e[1]) - M.F(e[0])]
+                    if any(0 < y - x < M.F(1, 10 ** 8) * 2 for x, y in zip(cuts, cuts[1:])):
+                        REC.skip(mon, "sliver-in-cropped-textgrid-(C04)")
+                        continue
                 why = M.entries_close(obs, exp, scale)
                 if why:
                     REC.violation(PROP, mon, "splitAudioOnTier", case, "cropped TextGrid for entry %d, tier %r: %s; observed %r expected %r" % (k, t["name"], why, obs, M.fmt_entries(exp)), sig, mech)
